@@ -257,6 +257,7 @@ func isStringLiteral
   props C06
   option safety
   option pure
+  ensures text-between-a-pair-of-quotes-of-one-kind: result <==> (len(s) >= 2 && ((s[0] == 39 && s[len(s) - 1] == 39) || (s[0] == 34 && s[len(s) - 1] == 34)))
 
 extern isIdentifier
   props C06
